@@ -17,6 +17,8 @@ PROP = Property(
                   "verifier side (shared with C01): Ok ==> every index < m and is_lottery_won(phi_f, dense(sigma,msg,index), stake, total)",
                   ["SingleSignatureForConcatenation::check_indices"]),
     ],
+    replays=[dict(crate="mithril-stm", file="mithril-stm/src/proof_system/concatenation/signer.rs", module="replays/c08_lottery.rs"),
+             dict(crate="mithril-stm", file="mithril-stm/src/proof_system/concatenation/single_signature.rs", module="replays/c01_sig.rs")],
     assumptions=[
         "PARTIAL: only the boundary clause phi_f = 1 and the clause 'identical decision for signer and verifier' are decided",
         "is_lottery_won is one function called by both sides; in the Verus units it is an uninterpreted function of (phi_f, draw, stake, total) - its determinism is that of num-bigint/num-rational/f64::ln (assumed)",
